@@ -81,3 +81,18 @@ VARIANTS += [
       "int_range_to_dtype(min_value=0, max_value=ub)",
       "int_range_to_dtype(0, ub)", "silent"),
 ]
+
+I2 = "moptipyapps/qap/instance.py"
+VARIANTS += [
+    V("loader-limit-below-constructor", I2,
+      "    return check_to_int_range(val, \"value\", 0, "
+      "1_000_000_000_000_000)",
+      "    return check_to_int_range(val, \"value\", 0, "
+      "1_000_000_000_000)", "fire", "D9.4",
+      "seed C09-loader-limit-below-constructor"),
+    V("silent-loader-limit-in-local", I2,
+      "    return check_to_int_range(val, \"value\", 0, "
+      "1_000_000_000_000_000)",
+      "    top: Final[int] = 1_000_000_000_000_000\n"
+      "    return check_to_int_range(val, \"value\", 0, top)", "silent"),
+]
